@@ -265,6 +265,12 @@ class Session:
                 self.emit('pvalid %s %s %s %d' % (enc(k[0]), enc(k[1]), enc(k[2]), valids[i]), 'ok', 'pvalid')
         self.emit('ptext', enc(text), ('cssText under', pf))
         self.emit('psep %s' % enc(sep), enc(text_sep), ('getCssText(%r) under' % sep, pf))
+        # the items the written text consists of: split by the real tokenizer vs `srcOf` of the model
+        if pf['lineSeparator'] or not pf['keepComments'] or True:
+            words = []
+            for w in G.split_block(self.front.tokenizer, text):
+                words.append('M:%s' % enc(w[1]) if w[0] == 'M' else 'D:%s:%s:%s' % (enc(w[1]), enc(w[2]), enc(w[3])))
+            self.emit('psrc', show_list(words), ('source items of cssText under', pf))
         self.ctx.count('prefs-probe:decl')
         self.oracle_text(pf, text, text_sep, sep, items, eff)
 
@@ -282,6 +288,23 @@ class Session:
             if ref is not None and ref != t:
                 ctx.violate('the text of a property is name, colon, value and priority as the preferences say',
                             {'ops': G.show_ops(self.history), 'prefs': diff}, {'cssText': t, 'expected': ref})
+                return
+        # reparse: the written text, assigned to a fresh block, leaves exactly the written entries
+        from cssutils.css import CSSStyleDeclaration
+        written = [(val.name, val.value, val.priority) for val, t, ref in shown if isinstance(val, Property) and t]
+        if all(G.py_normalize(n) == n for n, _, _ in written) and not pf['validOnly']:
+            old = self.cu.log.raiseExceptions
+            self.cu.log.raiseExceptions = False
+            try:
+                with time_limit(20):
+                    back = CSSStyleDeclaration(cssText=text)
+                    again = [(p.name, p.value, p.priority) for p in back.getProperties(all=True)]
+            finally:
+                self.cu.log.raiseExceptions = old
+            if again != written:
+                ctx.violate('cssText reparses to the written entries (name, value, priority), in order',
+                            {'ops': G.show_ops(self.history), 'prefs': diff, 'cssText': text},
+                            {'written': written, 'reparsed': again})
                 return
         for got, s_ in ((text, pf['lineSeparator']), (text_sep, sep)):
             lines = []
@@ -503,6 +526,36 @@ class Session:
                 self.emit('vt %s %s' % (enc(k), enc(t)), 'ok', 'vt')
         self.emit('vptext', enc(text), ('variables cssText under', pf))
         self.ctx.count('prefs-probe:vars')
+        # reparse with the real parser: the items of the written text vs `vWritten` of the model (names and kinds;
+        # the value texts as well when the value serializer runs with its default preferences), and oracle:
+        # the reparsed block reports the same variables
+        from cssutils.css import CSSVariablesDeclaration
+        stable = all(G.py_normalize(k) == k for k in v.keys())
+        escblank = any(G.ends_escaped_blank(t) for t in vts)
+        if text and not escblank:
+            cu.log.raiseExceptions = False
+            try:
+                with time_limit(20):
+                    back = CSSVariablesDeclaration(cssText=text)
+                    bitems = [('var', it.value[0], it.value[1].cssText) if it.type == 'var'
+                              else ('other', getattr(it.value, 'cssText', it.value), None) for it in back.seq]
+                    breport = [(k, back.getVariableValue(G.requote(k))) for k in back.keys()]
+            finally:
+                cu.log.raiseExceptions = old
+            valdefaults = all(pf[k] == G.PREF_DEFAULTS[k] for k in ('keepComments', 'spacer', 'listItemSpacer'))
+            # known finding C10-vars-trailing-comment: the grammar of `cssText =` refuses a comment after the last
+            # declaration, so a block whose last written item is a comment does not reparse
+            trailing = pf['keepComments'] and len(v.seq) > 0 and v.seq[-1].type != 'var' and any(
+                it.type == 'var' for it in v.seq)
+            if valdefaults and not trailing:
+                self.emit('vpsrc', show_list(['var/%s/%s' % (enc(a), enc(b)) if k == 'var' else 'other/%s' % enc(a)
+                                              for k, a, b in bitems]), ('items of the reparsed variables text', pf))
+            want = [(k, v.getVariableValue(G.requote(k))) for k in v.keys()]
+            if (stable or not pf['normalizedVarNames']) and valdefaults and breport != want:
+                self.ctx.violate('variables block: cssText reparses to the variables the API reports',
+                                 {'ops': self.history, 'prefs': {k: x for k, x in pf.items() if x != G.PREF_DEFAULTS[k]},
+                                  'cssText': text}, {'api': want, 'reparsed': breport},
+                                 known='C10-vars-trailing-comment' if trailing else None)
         # oracle (the statement of T10.8 on the implementation): up to layout white space the text is exactly the
         # entries, `name:value;` each (last `;` as omitLastSemicolon says), comments in between
         content, n = [], len(v.seq)
@@ -514,6 +567,11 @@ class Session:
                 vi += 1
             elif pf['keepComments']:
                 content.append(getattr(it.value, 'cssText', it.value))
+        if v.seq and v.seq[-1].type == 'var' and G.ends_escaped_blank(vts[-1]) \
+                and not (text.endswith(vts[-1]) or text.endswith(vts[-1] + ';')):
+            self.ctx.violate('variables block: an escaped blank that ends the last value is part of the value and stays',
+                             {'ops': self.history, 'prefs': {k: x for k, x in pf.items() if x != G.PREF_DEFAULTS[k]}},
+                             {'cssText': text, 'last value': vts[-1]})
         if G.strip_ws(text) != G.strip_ws(''.join(content)):
             self.ctx.violate('variables block: up to layout white space cssText is exactly its entries',
                              {'ops': self.history, 'prefs': {k: x for k, x in pf.items() if x != G.PREF_DEFAULTS[k]}},
@@ -534,6 +592,11 @@ class Session:
         if any(G.requote(k) not in v for k in v.keys()):
             ctx.violate('variables block: every listed key is a member', {'ops': self.history}, {'keys': v.keys()})
         text = v.cssText
+        if v.seq and v.seq[-1].type == 'var':
+            lastv = v.seq[-1].value[1].cssText
+            if G.ends_escaped_blank(lastv) and not text.endswith(lastv):
+                ctx.violate('variables block: an escaped blank that ends the last value is part of the value and stays',
+                            {'ops': self.history}, {'cssText': text, 'last value': lastv})
         listed = G.list_variables(text)
         want = [(k, G.strip_comments(val)) for k, val in reported]
         if listed != want:
@@ -814,6 +877,16 @@ class C10(Check):
                 v.setVariable(name, value)
             back = CSSVariablesDeclaration(cssText=v.cssText)
             return back.keys() != v.keys()
+        if finding['id'] == 'C10-vars-trailing-comment':
+            from cssutils.css import CSSVariablesDeclaration
+            cu.log.raiseExceptions = False
+            try:
+                v = CSSVariablesDeclaration(cssText=w['cssText'])
+                v.removeVariable(w['removeVariable'])
+                back = CSSVariablesDeclaration(cssText=v.cssText)
+                return v.keys() == w['keys'] and back.keys() != v.keys()
+            finally:
+                cu.log.raiseExceptions = True
         if finding['id'] == 'C10-escaped-backslash-name':
             from cssutils.css import CSSStyleDeclaration
             s = CSSStyleDeclaration()
